@@ -47,7 +47,7 @@ m = {
          "kind_free_text": "thorough tier: mutation-adequacy and false-alarm controls of the rule engine on a scratch copy of the current tree (selftest/*.json, seeded/*/patch.diff, benign/*/r*.diff)"},
     ],
     "checks": checks,
-    "notes": "Technique family: static analysis only. Every check re-extracts MIR facts from /repo's working tree when any source file changed (content hashes), fails closed (exit 2) when an anchor is missing. Nineteen genuine defects were found and repaired in /repo (fix: commits a8a23ed C03, d4f7213 a25879d f75f639 44c1e5b C17, 44c862e 1519544 bbdf918 C16, ab159d7 C11, 58be4a8 8f9b090 C19, d1f4049 0847fe6 C06, 868fb5b C13, 7c960b5 C14, 449d88e 8a092d5 3d70ec5 b66cd72 C18; known_findings.json lists them under fixed). Four are recorded as open known findings reported by a rule (C06 close flushes a read-only handle, C14 reads checkpoint on a cold open, C17 content refusal inside the write loop, C19 pushdown on masked fields) and two C13 defects are listed as demonstrated only (no sound static rule). See DESIGN.md (section 11 for seeded changes and benign controls) and RULES.md.",
+    "notes": "Technique family: static analysis only. Every check re-extracts MIR facts from /repo's working tree when any source file changed (content hashes), fails closed (exit 2) when an anchor is missing. Twenty-nine genuine defects were found and repaired in /repo (29 `fix:` commits, listed in DESIGN.md section 8 and, with the failing input of each, under `fixed` in known_findings.json); most were reproduced first by audit sub-agents that were given only a property text, then turned into a structural rule that reports the pre-fix tree. Eleven defects are recorded as open known findings reported by a rule (C01, C02, C04 x2, C05 x2, C06, C14, C17, C19 - repairs that are design decisions) and eight are listed as demonstrated only (C07 x3, C10 x3, C13 x2: no sound static necessary condition; printed as KNOWN-FINDING lines, they suppress nothing). See DESIGN.md (section 11 for seeded changes and benign controls) and RULES.md.",
     "not_applicable": [{"property_id": k, "reason": v} for k, v in sorted(NA.items())],
 }
 json.dump(m, open(os.path.join(V, "MANIFEST.json"), "w"), indent=1)
